@@ -905,13 +905,47 @@ func laneP_C20(t *testing.T, plan *Plan, w *World, sink *Sink) {
 				return
 			}
 			yes := "y\n"
-			res, err := runBinary(dir, Mix(plan.Seed, uint64(90+i)), flagArgs(rr.Op.Flags), &yes, plan.TZ)
+			// a third of these runs meet a failing system call on one file of the directory (strace's
+			// tampering: every open / read / stat of that file, or every directory read, fails)
+			var wrap []string
+			fault := ""
+			fr := NewRng(Mix(plan.Seed, uint64(777+i)))
+			variant := Mix(plan.Seed, uint64(90+i))
+			if straceBin() != "" && fr.Chance(1, 3) {
+				var names []string
+				for n := range rr.Before {
+					names = append(names, n)
+				}
+				sort.Strings(names)
+				if len(names) > 0 {
+					variant -= variant % 5 // plain directory argument, so that the traced path is the opened path
+					target := filepath.Join(dir, filepath.FromSlash(Pick(fr, names)))
+					switch fr.Intn(4) {
+					case 0:
+						fault = "open:" + Pick(fr, []string{"EACCES", "EIO", "EMFILE", "ENOMEM", "ELOOP"})
+						wrap = []string{straceBin(), "-f", "-qq", "-o", "/dev/null", "-P", target, "-e", "trace=openat", "-e", "inject=openat:error=" + fault[5:]}
+					case 1:
+						fault = "read:" + Pick(fr, []string{"EIO", "EISDIR", "ENOMEM"})
+						wrap = []string{straceBin(), "-f", "-qq", "-o", "/dev/null", "-P", target, "-e", "trace=read", "-e", "inject=read:error=" + fault[5:]}
+					case 2:
+						fault = "stat:" + Pick(fr, []string{"EIO", "EACCES", "ENOENT"})
+						wrap = []string{straceBin(), "-f", "-qq", "-o", "/dev/null", "-P", target, "-e", "trace=newfstatat,fstat,statx", "-e", "inject=newfstatat,fstat,statx:error=" + fault[5:]}
+					case 3:
+						fault = "readdir:EIO"
+						wrap = []string{straceBin(), "-f", "-qq", "-o", "/dev/null", "-P", filepath.Dir(target), "-e", "trace=getdents64", "-e", "inject=getdents64:error=EIO"}
+					}
+				}
+			}
+			res, err := runBinaryWrapped(dir, variant, flagArgs(rr.Op.Flags), &yes, plan.TZ, wrap)
 			if err != nil {
 				sink.res.Harness = append(sink.res.Harness, "lane P run: "+err.Error())
 				stop = true
 				return
 			}
 			sink.Cell("lane:P")
+			if fault != "" {
+				sink.res.Faults["P-syscall-"+strings.SplitN(fault, ":", 2)[0]]++
+			}
 			if res.Exit != 0 {
 				sink.Cell("lane:P:exit-nonzero")
 			}
@@ -920,7 +954,7 @@ func laneP_C20(t *testing.T, plan *Plan, w *World, sink *Sink) {
 				if m := lanePanicFn.FindStringSubmatch(res.Stdout); m != nil {
 					cls = m[1]
 				}
-				sink.LaneViolation(plan, "laneP:binary-crashed:"+cls, fmt.Sprintf("flags=%d exit=%d output: %s", rr.Op.Flags, res.Exit, tailStr(res.Stdout, 1500)))
+				sink.LaneViolation(plan, "laneP:binary-crashed:"+cls, fmt.Sprintf("flags=%d fault=%q exit=%d output: %s", rr.Op.Flags, fault, res.Exit, tailStr(res.Stdout, 1500)))
 				stop = true
 			}
 		}()
